@@ -44,6 +44,15 @@ UniqueNameValid(b) == Len(b) >= 1 /\ Len(b) <= MaxNameLen /\ b[1] = cColon
 WellKnownNameValid(b) == Len(b) >= 1 /\ Len(b) <= MaxNameLen /\ b[1] # cColon
                       /\ ElemScan(b, 1, TRUE, 0, "bus") >= 2
 BusNameValid(b) == UniqueNameValid(b) \/ WellKnownNameValid(b)
+\* KNOWN DEFECT (deviation LenientUniqueName): what the unique-name branch of _dbus_validate_bus_name_full really accepts --
+\* ':' followed by any run of name characters and dots, each dot followed by a name character (so ":", ":a", ":.a" pass)
+RECURSIVE UniqueTailLenient(_,_)
+UniqueTailLenient(b, i) ==
+  IF i > Len(b) THEN TRUE
+  ELSE IF b[i] = cDot THEN i + 1 <= Len(b) /\ RestOk("uniq", b[i + 1]) /\ b[i + 1] # cDot /\ UniqueTailLenient(b, i + 2)
+  ELSE RestOk("uniq", b[i]) /\ UniqueTailLenient(b, i + 1)
+UniqueNameLenient(b) == Len(b) >= 1 /\ Len(b) <= MaxNameLen /\ b[1] = cColon /\ UniqueTailLenient(b, 2)
+BusNameValidL(b, lenient) == BusNameValid(b) \/ (lenient /\ UniqueNameLenient(b))
 
 \* arg0namespace / own_prefix values: like a well-known name but a single element is enough
 BusNamespaceValid(b) == Len(b) >= 1 /\ Len(b) <= MaxNameLen /\ b[1] # cColon
